@@ -89,8 +89,10 @@ def build_tuc(profile="debug"):
     return os.path.join(tdir, profile, "tuc")
 
 
-def build_harness():
-    d = os.path.join(BUILD, "hrs-" + repo_tag())
+def build_harness(lib=True):
+    """the Rust harness; lib=False builds the CLI-only variant (no dependency on the tuc library)"""
+    tag = "hrs-" + repo_tag() + ("" if lib else "-cli")
+    d = os.path.join(BUILD, tag)
     os.makedirs(d, exist_ok=True)
     toml = """[package]
 name = "harness"
@@ -103,17 +105,21 @@ edition = "2018"
 name = "harness"
 path = "%s/harness-rs/src/main.rs"
 
+[features]
+default = [%s]
+lib = ["tuc", "regex"]
+
 [dependencies]
-tuc = { path = "%s" }
-regex = { version = "1.11", default-features = false, features = ["std", "unicode-bool", "unicode-perl", "unicode-gencat"] }
-""" % (VERIF, os.path.abspath(REPO))
+tuc = { path = "%s", optional = true }
+regex = { version = "1.11", default-features = false, features = ["std", "unicode-bool", "unicode-perl", "unicode-gencat"], optional = true }
+""" % (VERIF, '"lib"' if lib else "", os.path.abspath(REPO))
     p = os.path.join(d, "Cargo.toml")
     if not os.path.exists(p) or open(p).read() != toml:
         open(p, "w").write(toml)
     lock = os.path.join(d, "Cargo.lock")
     if not os.path.exists(lock):
         sh(["cp", os.path.join(REPO, "Cargo.lock"), lock])
-    tdir = os.path.join(BUILD, "target-hrs-" + repo_tag())
+    tdir = os.path.join(BUILD, "target-" + tag)
     sh(["cargo", "build", "--offline", "--manifest-path", p, "--target-dir", tdir], timeout=1800)
     return os.path.join(tdir, "debug", "harness")
 
